@@ -27,7 +27,7 @@ func init() {
 		ThoroughSec: 600,
 		Rule: "one run = one packetizer (MTU in [64,65535] biased 64/100/1200/1500, fixed sequencer start biased to 65535-k or random sequencer through the random seam, stub payloader " +
 			"returning drawn fragment lists incl. none and fragments of exactly MTU-12, or each real payloader behind a recording proxy) driven through 1-40 operations among Packetize, " +
-			"SkipSamples, GeneratePadding, EnableAbsSendTime(0..14) at simulated instants (clock jumps from microseconds to hours, epochs biased to 64 s NTP wraps); fingerprint = " +
+			"SkipSamples, GeneratePadding, EnableAbsSendTime(0..255, mostly 0..14) at simulated instants (clock jumps from microseconds to hours, epochs biased to 64 s NTP wraps); fingerprint = " +
 			"hash(payloader kind, mtu class, abs-send-time, per-op (kind, #packets class, wrap flags) truncated to 14); non-trivial = a sequence or timestamp wrap, a multi-packet train, " +
 			"padding packets, or abs-send-time was exercised",
 		Real: []string{"rtp.NewPacketizer", "rtp.Packetizer.Packetize", "rtp.Packetizer.SkipSamples", "rtp.Packetizer.GeneratePadding", "rtp.Packetizer.EnableAbsSendTime",
@@ -425,9 +425,17 @@ func runC06(c *core.Ctx) {
 			}
 			fp = append(fp, 3<<8|uint64(n))
 		case 3: // EnableAbsSendTime
+			// ids 1-14 use the one-byte form; 15-255 are legal abs-send-time ids too (two-byte form)
 			id := t.Intn(15)
-			if t.Chance(1, 3) {
+			switch t.Weighted(6, 3, 1, 1, 1) {
+			case 1:
 				id = 0
+			case 2:
+				id = 15
+			case 3:
+				id = 16 + t.Intn(240)
+			case 4:
+				id = 255
 			}
 			if c.Guard("rtp.Packetizer.EnableAbsSendTime", func() { pk.EnableAbsSendTime(id) }) {
 				return
